@@ -647,7 +647,10 @@ def run(ctx):
         'from %s). Held Deferreds: 2 in flight x both firing orders x '
         '{value, failure, unencodable value}^2 x reply flags. Calls are real '
         'bytes (flags byte included) through dataReceived; replies are read '
-        'with the reference parser. state = history; transition = executed '
+        'with the reference parser. Long-lived connection: 60..600 cycles '
+        'of export / call own and foreign member / unexport of short-lived '
+        'objects of two classes, 0, 7 or 40 of them live at a time. '
+        'state = history; transition = executed '
         'history' % (len(pool), 'a subset' if ctx.quick else 'the pool'))
     ctx.assumptions = [
         'with no interface header any interface declaring the member may be '
@@ -658,6 +661,7 @@ def run(ctx):
     ctx.map(_task_pairs, [(ctx.quick, i, n) for i in range(n)])
     ctx.map(_task_deferred, [0])
     ctx.map(_task_composed, [0])
+    ctx.map(_task_churn, CHURN)
     ctx.bounds = {'call_pool': len(pool), 'history_length': 2}
 
 
@@ -799,6 +803,107 @@ def run_two_handlers():
     return viol
 
 
+def run_churn(cycles, live, same_path):
+    """a long-lived connection exporting short-lived objects of two classes
+    (different interfaces) one after the other, each called once with its
+    own member and once with the other class's member, then unexported and
+    dropped `live` cycles later: every call is dispatched according to the
+    object exported at that path at that moment"""
+    import gc
+    from txdbus import objects as O, interface as I
+    viol = []
+    w = fakes.ClientWorld()
+    try:
+        w.sent()
+        ia = I.DBusInterface('org.ex.ChurnA', I.Method('Ping', 's', 's'),
+                             noRegister=True)
+        ib = I.DBusInterface('org.ex.ChurnB', I.Method('Count', 'u', 'uu'),
+                             noRegister=True)
+        ran = []
+
+        class Alpha(O.DBusObject):
+            dbusInterfaces = [ia]
+
+            def dbus_Ping(self, t):
+                ran.append(('Ping', t))
+                return 'alpha:' + t
+
+        class Beta(O.DBusObject):
+            dbusInterfaces = [ib]
+
+            def dbus_Count(self, n):
+                ran.append(('Count', n))
+                return n, n + 1
+        paths = []
+        serial = 2000
+        for n in range(cycles):
+            path = '/churn/p' if same_path else '/churn/s%d' % n
+            alpha = (n % 2 == 0) if not same_path else (n % 3 != 1)
+            obj = (Alpha if alpha else Beta)(path)
+            w.conn.exportObject(obj)
+            del obj
+            w.sent()
+            calls = [('org.ex.ChurnA', 'Ping', 's', ['x%d' % n],
+                      ['alpha:x%d' % n] if alpha else None,
+                      ('Ping', 'x%d' % n)),
+                     ('org.ex.ChurnB', 'Count', 'u', [n],
+                      None if alpha else [n, n + 1], ('Count', n))]
+            for iface, member, sig, body, want, log in calls:
+                serial += 1
+                del ran[:]
+                w.conn.dataReceived(R.encode_message(
+                    R.METHOD_CALL, serial,
+                    {'path': path, 'member': member, 'interface': iface,
+                     'sender': CALLER, 'destination': ':1.7'}, sig, body))
+                mine = [m for m in w.sent()
+                        if m['fields'].get('reply_serial') == serial]
+                if want is not None:
+                    ok = len(mine) == 1 and mine[0]['type'] == 2 and \
+                        mine[0]['body'] == want and ran == [log]
+                else:
+                    ok = len(mine) == 1 and mine[0]['type'] == 3 and \
+                        not ran
+                if not ok:
+                    viol.append(('churn/%s' % ('own-member' if want
+                                               is not None else
+                                               'other-class-member'),
+                                 'cycle %d of export / call / unexport '
+                                 '(%d objects live, %s): %s.%s on the %s '
+                                 'object at %s ran %r and was answered %r'
+                                 % (n, live, 'one path' if same_path else
+                                    'a path per object', iface, member,
+                                    'Alpha' if alpha else 'Beta', path, ran,
+                                    [_b(m) for m in mine])))
+                    return viol
+            paths.append(path)
+            if len(paths) > live or same_path:
+                w.conn.unexportObject(paths.pop(0))
+                gc.collect()
+                w.sent()
+    except Exception as e:
+        viol.append(('churn/raises-%s' % type(e).__name__,
+                     'export / call / unexport cycles: %r' % (e,)))
+    finally:
+        w.close()
+    return viol
+
+
+CHURN = [(60, 0, True), (200, 0, False), (300, 7, False), (600, 40, False)]
+
+
+def _task_churn(args):
+    res = core.Result()
+    res.count('states', args[0])
+    res.count('transitions', args[0] * 4)
+    res.count('evaluations', args[0] * 2)
+    res.count('nontrivial', args[0])
+    for t, w in run_churn(*args):
+        res.violation('%s/%s' % (PROP, t), w, {'part': 'churn',
+                                               'args': list(args)},
+                      size=args[0])
+    return res
+
+
 def _task_composed(_):
     res = core.Result()
     found = run_composed()
@@ -817,6 +922,9 @@ def _task_composed(_):
 
 
 def replay(data):
+    if data['part'] == 'churn':
+        return [('%s/%s' % (PROP, t), w) for t, w in
+                run_churn(*data['args'])]
     if data['part'] == 'two':
         return [('%s/%s' % (PROP, t), w) for t, w in run_two_handlers()]
     if data['part'] == 'composed':
